@@ -111,6 +111,17 @@ def main(run):
                             bad = "mode '%s': 4/3 pi R^3 = %.12g but <V_form> = %.12g" % (modes[mode - 1], 4.0 / 3.0 * math.pi * reff ** 3, vform)
                 if bad is None and not (np.isfinite(shell) and shell > 0 and np.isfinite(ratio) and ratio > 0):
                     bad = "volume %r / volume ratio %r not positive and finite" % (shell, ratio)
+                if bad is None and disperse:
+                    # the mono switch of the amplitude interface: with the dispersity settings still in the dictionary,
+                    # call_Fq(..., mono=True) is the monodisperse tuple (so <F>^2 = <F^2> as q -> 0 again)
+                    tm = call_Fq(kernel, dict(fq), cutoff=1e-5, mono=True)
+                    tp = call_Fq(kernel, dict(pars, scale=scale, background=bg, radius_effective_mode=mode), cutoff=1e-5)
+                    evals += 2; stats["mono_switch"] = stats.get("mono_switch", 0) + 1
+                    for a_, b_, nm_ in zip(tm, tp, ("<F>", "<F^2>", "R_eff", "V_shell", "volume ratio")):
+                        a_, b_ = np.asarray(a_, "d"), np.asarray(b_, "d")
+                        if np.all(np.isfinite(b_)) and np.any(np.abs(a_ - b_) > 1e-12 * (np.abs(b_) + 1e-300)):
+                            bad = "call_Fq(mono=True) with dispersity settings present gives %s = %s, the monodisperse evaluation gives %s" % (nm_, a_.ravel()[:3].tolist(), b_.ravel()[:3].tolist())
+                            break
                 if bad:
                     run.add(Finding("C14:%s:%s" % (name, "mode%d" % mode), "%s (mode %d, %s): %s" % (name, mode, "dispersed" if disperse else "monodisperse", bad), desc))
                 else:
